@@ -333,6 +333,27 @@ class Ctx:
             raise Violation(f"trace event {rj['line']} is not a behaviour of the specification ({module}){why}",
                             replay_lines=ctx_lines, replay_name=f"{module}_rejected.ndjson")
 
+    def confirm_and_note(self, module, rejections, context_of=None, xmx="3g"):
+        """Hooked step validation (Trace_C11h / C12h / C19h).  The logged steps are INTERNAL steps of one particular
+        algorithm: a lawful variation of the library may take other steps while every statement of the property still
+        holds, and the property itself is decided on the results of the public routines by the API-level trace spec.  A
+        step that is not a step of the machine is therefore reported as NOTE conformance (after re-validation in
+        isolation), never as a violation; the rest of that run is not validated."""
+        for rj in rejections:
+            if rj["event"] is None:
+                raise ToolError("rejection without event:\n" + (rj["out"] or ""))
+            ctx_lines = context_of(rj["shard"], rj["at"]) if context_of else [rj["event"]]
+            p = self.work / "shards" / f"confirm_{module}.ndjson"
+            p.parent.mkdir(parents=True, exist_ok=True)
+            p.write_text("\n".join(ctx_lines) + "\n")
+            r = self._validate_shard(module, None, p, "confirm", None, 1800, xmx)
+            if r["ok"]:
+                raise ToolError(f"event rejected in its shard but accepted in isolation (shard artefact):\n{rj['event'][:500]}")
+            self.notes.append(f'"hooked step is not a step of the machine ({module})", {rj["line"]}')
+            d = OUTROOT / "replays" / self.pid
+            d.mkdir(parents=True, exist_ok=True)
+            (d / f"{module}_note.ndjson").write_text("\n".join(ctx_lines) + "\n")
+
     # ------------------------------------------------------------------ bookkeeping
     def add_nontrivial(self, keys):
         for k in keys:
